@@ -283,6 +283,7 @@ def r5(ctx):
     """the API layer returns the list the store actor produced for the requested document"""
     from . import apifw
     apifw.check_forwarder(ctx, "C17.R5", "doc_get_sync_peers", "GetSyncPeersRequest", ["get_sync_peers(req.doc_id)"], "Ok(GetSyncPeersResponse(result-of-get_sync_peers))")
+    apifw.check_client(ctx, "C17.R5", "api::Doc::get_sync_peers", "GetSyncPeersRequest")
     ctx.floor("C17.R5", 2)
 
 
